@@ -11,6 +11,7 @@ META = {
     'note': 'Trusted: TLC, the H1 hook (logs at statement boundaries only), the renderer of structured programs to BASIC text. Fragment: integer-valued variables, no STEP 0, '
             'no statically mismatched NEXT variables; programs leaving the fragment are discarded and counted.',
 }
+META['text'] += ' A declarative family makes GOSUB / ON n GOSUB fail (missing line, trapped, RESUME NEXT) at top level and inside a subroutine: no return record may be left behind.'
 
 
 def run(ctx):
